@@ -33,6 +33,7 @@ import (
 	"time"
 
 	"github.com/gocql/gocql"
+	"github.com/golang/snappy"
 	"verifharness/memcluster"
 	"verifharness/sess"
 	"verifharness/vh"
@@ -41,7 +42,8 @@ import (
 var prefetchNeverArrived int32
 
 type walkScen struct {
-	delay    bool // `v<n>d`: the node holds the answer to every follow-up request for a moment (see setupWalk)
+	zbits    string // `v<n>[d]z<bits>`: snappy negotiated; the k-th QUERY/EXECUTE answer is sent compressed iff bits[k mod len] = 1
+	delay    bool   // `v<n>d`: the node holds the answer to every follow-up request for a moment (see setupWalk)
 	ver      int
 	consumer string
 	prefetch string
@@ -49,6 +51,18 @@ type walkScen struct {
 	kind     string
 	script   []reply
 	steps    []string
+}
+
+// vtok is the version token of the op line: v<ver>[d][z<bits>]
+func (s walkScen) vtok() string {
+	t := fmt.Sprintf("v%d", s.ver)
+	if s.delay {
+		t += "d"
+	}
+	if s.zbits != "" {
+		t += "z" + s.zbits
+	}
+	return t
 }
 
 func (s walkScen) String() string {
@@ -60,6 +74,9 @@ func (s walkScen) String() string {
 	if s.delay {
 		d = "d"
 	}
+	if s.zbits != "" {
+		d += "z" + s.zbits
+	}
 	return fmt.Sprintf("walk v%d%s %s %s %d %s %s %s", s.ver, d, s.consumer, s.prefetch, s.pageSize, s.kind, strings.Join(sc, ";"), strings.Join(s.steps, ","))
 }
 
@@ -69,9 +86,16 @@ func parseWalk(op string) walkScen {
 		panic("bad walk op")
 	}
 	// reuse the session tier's parser for the script
-	delay := strings.HasSuffix(w[1], "d")
-	ps := parseScen(fmt.Sprintf("sess %s scan %s %s %s . %s", strings.TrimSuffix(w[1], "d"), w[3], w[4], w[5], w[6]))
-	return walkScen{delay: delay, ver: ps.ver, consumer: w[2], prefetch: w[3], pageSize: ps.pageSize, kind: w[5], script: ps.script, steps: strings.Split(w[7], ",")}
+	vtok, zbits := w[1], ""
+	if i := strings.Index(vtok, "z"); i >= 0 {
+		vtok, zbits = vtok[:i], vtok[i+1:]
+		if zbits == "" || strings.Trim(zbits, "01") != "" {
+			panic("bad compression bits")
+		}
+	}
+	delay := strings.HasSuffix(vtok, "d")
+	ps := parseScen(fmt.Sprintf("sess %s scan %s %s %s . %s", strings.TrimSuffix(vtok, "d"), w[3], w[4], w[5], w[6]))
+	return walkScen{zbits: zbits, delay: delay, ver: ps.ver, consumer: w[2], prefetch: w[3], pageSize: ps.pageSize, kind: w[5], script: ps.script, steps: strings.Split(w[7], ",")}
 }
 
 func execWalk(op string) (answer string) {
@@ -117,6 +141,17 @@ func setupWalk(sc walkScen) (env *walkEnv, fatal string) {
 	idx := 0  // script entries (fetch attempts) consumed
 	var first string
 	cols := []memcluster.Col{{Name: "v", Type: memcluster.TInt}}
+	// COMPRESSION AS A DIMENSION: with snappy negotiated the protocol compresses a body only if the frame's flag says
+	// so; the scripted node answers the k-th QUERY/EXECUTE compressed or not as the scenario's bits say (every other
+	// answer uncompressed). What the application receives must not depend on it.
+	send := func(req *memcluster.Request, k int, op byte, body []byte) {
+		if sc.zbits != "" && sc.zbits[k%len(sc.zbits)] == '1' {
+			f := &memcluster.Frame{Version: byte(sc.ver) | 0x80, Flags: 0x01, Stream: req.Stream, Op: op, Body: snappy.Encode(nil, body)}
+			req.Conn.WriteRaw(f.Encode(sc.ver))
+			return
+		}
+		req.Conn.Reply(req.Stream, op, body)
+	}
 	handle := func(req *memcluster.Request) {
 		switch req.Op {
 		case memcluster.OpPrepare:
@@ -184,7 +219,7 @@ func setupWalk(sc walkScen) (env *walkEnv, fatal string) {
 				for i, v := range r.rows {
 					rows[i] = [][]byte{{byte(v >> 24), byte(v >> 16), byte(v >> 8), byte(v)}}
 				}
-				req.Conn.Reply(req.Stream, memcluster.OpResult, memcluster.RowsBody(cols, rows, r.state, skip))
+				send(req, k, memcluster.OpResult, memcluster.RowsBody(cols, rows, r.state, skip))
 			case "s", "p": // ("p": an entry no PREPARE consumed — not generated)
 				var extra []byte
 				switch r.code {
@@ -195,11 +230,11 @@ func setupWalk(sc walkScen) (env *walkEnv, fatal string) {
 				case memcluster.ErrWriteTO:
 					extra = memcluster.WriteTimeoutExtra(1, 1, 2, "SIMPLE")
 				}
-				req.Conn.Reply(req.Stream, memcluster.OpError, memcluster.ErrorBody(int32(r.code), "scripted", extra))
+				send(req, k, memcluster.OpError, memcluster.ErrorBody(int32(r.code), "scripted", extra))
 			case "u":
-				req.Conn.Reply(req.Stream, memcluster.OpError, memcluster.ErrorBody(memcluster.ErrUnprepared, "unprepared", memcluster.UnpreparedExtra(preparedID)))
+				send(req, k, memcluster.OpError, memcluster.ErrorBody(memcluster.ErrUnprepared, "unprepared", memcluster.UnpreparedExtra(preparedID)))
 			default:
-				req.Conn.Reply(req.Stream, memcluster.OpError, memcluster.ErrorBody(memcluster.ErrServer, "script exhausted", nil))
+				send(req, k, memcluster.OpError, memcluster.ErrorBody(memcluster.ErrServer, "script exhausted", nil))
 			}
 		default:
 			req.Conn.Reply(req.Stream, memcluster.OpResult, memcluster.VoidBody())
@@ -207,8 +242,22 @@ func setupWalk(sc walkScen) (env *walkEnv, fatal string) {
 	}
 	for _, n := range cl.Nodes {
 		n.Handle = handle
+		if sc.zbits != "" {
+			n.Supported = map[string][]string{"CQL_VERSION": {"3.0.0"}, "COMPRESSION": {"snappy"}}
+			n.FrameHook = func(_ *memcluster.ServerConn, f *memcluster.Frame) bool {
+				if f.Flags&0x01 != 0 { // the driver compresses every request body once snappy is negotiated
+					if b, err := snappy.Decode(nil, f.Body); err == nil {
+						f.Body, f.Flags = b, f.Flags&^0x01
+					}
+				}
+				return false
+			}
+		}
 	}
 	cfg := sess.Config(cl, sc.ver, "10.0.0.1")
+	if sc.zbits != "" {
+		cfg.Compressor = gocql.SnappyCompressor{}
+	}
 	cfg.Timeout = 20 * time.Second
 	cfg.ConnectTimeout = 20 * time.Second
 	cfg.WriteTimeout = 20 * time.Second
@@ -534,6 +583,9 @@ func (g *wgen) random() (walkScen, string) {
 		total += sizes[i]
 	}
 	sc.delay = g.r.Intn(4) == 0
+	if g.r.Intn(3) == 0 {
+		sc.zbits = []string{"0", "1", "01", "10", "001", "110", "0110", "1001"}[g.r.Intn(8)]
+	}
 	unprepAt := -1
 	if sc.kind != "q" && g.r.Intn(6) == 0 {
 		unprepAt = g.r.Intn(np)
@@ -608,6 +660,27 @@ func (g *wgen) exhaustive(emit func(walkScen, string)) {
 	}
 }
 
+// compressed: snappy negotiated, every pattern of flagged / unflagged answers over three pages of 3..4 rows, the
+// walk takes k rows of a page, lets the prefetched next page ARRIVE (`a`: its answer has been read off the
+// connection while rows of the current page are still unread), then takes the rest — for every k, prefetch 1 and
+// 0.5, every API, every page
+func (g *wgen) compressed(emit func(walkScen, string)) {
+	for _, c := range walkConsumers {
+		for _, bits := range []string{"0", "1", "01", "10", "011", "100"} {
+			for _, pf := range []string{"1", "0.5"} {
+				for k := 2; k <= 3; k++ {
+					g.next = 0
+					script := g.script([]int{4, 3, 4}, 0, -1)
+					sc := walkScen{zbits: bits, ver: 2 + (k+len(bits))%4, consumer: c, prefetch: pf, pageSize: 5000, kind: kinds[(k+len(bits))%len(kinds)], script: script}
+					// page 1: k rows, await, rest; page 2: k rows, await, drain
+					sc.steps = []string{"s" + strconv.Itoa(k), "a", "s" + strconv.Itoa(4-k), "o", "s" + strconv.Itoa(k), "a", "d"}
+					emit(sc, fmt.Sprintf("walk-z/%s/bits%s/pf%s", c, bits, pf))
+				}
+			}
+		}
+	}
+}
+
 func walkTier(r *vh.Rng, out *vh.Out, tier string) map[string]interface{} {
 	g := &wgen{r: r}
 	type job struct {
@@ -617,6 +690,7 @@ func walkTier(r *vh.Rng, out *vh.Out, tier string) map[string]interface{} {
 	var jobs []job
 	emit := func(sc walkScen, cls string) { jobs = append(jobs, job{sc, cls}) }
 	g.exhaustive(emit)
+	g.compressed(emit)
 	n := 2500
 	if tier == "thorough" {
 		n = 40000
